@@ -317,7 +317,7 @@ def variant():
         skip = True
     except Exception:  # noqa: BLE001
         skip = False
-    fn = os.path.join(os.getcwd(), "pv_probe")
+    fn = os.path.join(os.getcwd(), "pv_probe_dir", "pv_probe")  # own directory: storage removes emptied directories
     m.save(backend="pickle", filename=fn)
     N.CUR.append({"children": [{"label": "k", "kind": "F", "i": 1}], "data": [["k", "a", ["arg", "x"]]],
                   "returns": [["k", "o"]]})
@@ -327,7 +327,6 @@ def variant():
         N.CUR.pop()
     m3.load(backend="pickle", filename=fn)
     rebind = m3.inputs.x.owner is m3
-    m3.delete_storage(backend="pickle", filename=fn)
     _VARIANT = (int(rev), int(fir), int(push), int(keep), int(skip), int(rebind))
     return _VARIANT
 
